@@ -238,3 +238,40 @@ Qed.
 (* ---------- the ordering case and the table case ---------- *)
 Theorem model_meets_spec_order cleanup : spec_ok (CPrepOrder cleanup) (run (CPrepOrder cleanup)) = true.
 Proof. destruct cleanup; vm_compute; reflexivity. Qed.
+
+(* ---------- pipeline(output, **kwargs): missing / surplus keywords are rejected before anything runs ---------- *)
+From Verif Require Model.Pipe Proofs.PipeFacts.
+
+Lemma missingb_false_sufficient p kw o : Pipe.missingb p kw o = false -> Pipe.sufficient p kw o.
+Proof.
+  unfold Pipe.missingb, Pipe.sufficient. intros H f cur Hf Hc Hs.
+  assert (existsb (fun f0 => existsb (fun c => match Pipe.source_of p kw f0 c with Pipe.SMissing => true | _ => false end)
+                                    (Pipe.pnames f0)) (Pipe.needed_top p kw o) = true); [|congruence].
+  apply existsb_exists. exists f. split; [assumption|]. apply existsb_exists. exists cur. split; [assumption|].
+  now rewrite Hs.
+Qed.
+
+Theorem model_meets_spec_call p o kw :
+  spec_ok (CCall p o kw false) (run (CCall p o kw false)) = true.
+Proof.
+  cbn [spec_ok run]. unfold call_in_scope.
+  destruct (Pipe.wf_pipelineb p) eqn:Hwf; cbn [andb negb]; [|reflexivity].
+  destruct (Pipe.is_output p o) eqn:Ho; cbn [andb negb]; [|reflexivity].
+  destruct (Pipe.ahas kw o) eqn:Hk; cbn [andb negb]; [reflexivity|].
+  unfold Pipe.run_checked, Pipe.run_precheck.
+  assert (Hn : Pipe.is_node p o = true) by (unfold Pipe.is_node; now rewrite Ho).
+  rewrite Hn, Hk, Ho. cbn [negb orb].
+  unfold call_surplus. fold (Pipe.surplusb p kw o).
+  destruct (Pipe.missingb p kw o) eqn:Hm.
+  - destruct (call_missing p o kw || Pipe.surplusb p kw o); reflexivity.
+  - destruct (Pipe.surplusb p kw o) eqn:Hs.
+    + rewrite orb_true_r. reflexivity.
+    + rewrite orb_false_r.
+      assert (Hc : call_missing p o kw = false).
+      { unfold call_missing.
+        destruct (PipeFacts.eval_ok_of_sufficient Pipe.Sym.body Pipe.Sym.pick p kw o Hwf) as [v Hv];
+          [intros f a; eexists; reflexivity|exact Ho|now apply missingb_false_sufficient|].
+        now rewrite Hv. }
+      rewrite Hc.
+      destruct (Pipe.run Pipe.Sym.body Pipe.Sym.pick p o kw false) as [[x|e] lg]; reflexivity.
+Qed.
